@@ -67,6 +67,11 @@ def cond_atoms(ctx, c, pol=True, subst=None):
                     return [("ncmp", op, a, b)]
                 op = NEG[op]
             return [norm_cmp(op, a, b, overloaded=c.get("fn"))]
+    if k == "MethodCall" and c.get("name") == "is_empty" and not c.get("args"):
+        # v.is_empty() on a Vec / slice / str is len(v) == 0
+        p_ = str(c.get("impl") or c.get("fn") or "")
+        if p_.startswith("std::vec::Vec") or p_.startswith("[T]::") or "slice" in p_:
+            return [norm_cmp("==" if pol else "!=", ("len", ctx.term(c["recv"], subst)), num(0))]
     if k == "Local" and subst is None:
         # a named condition: `let bad = a || b; if bad {..}`  (immutable, nothing it reads changes in between)
         b = ctx.binds.get(c["v"])
@@ -107,33 +112,28 @@ def _if_stmt_facts(ctx, e):
     then, els = e["then"], e.get("else")
     if diverges(then) and (els is None or not diverges(els)):
         out.extend((f, e) for f in cond_atoms(ctx, e["cond"], False))
-    elif els is not None and diverges(els) and not diverges(then):
-        # chain: collect the conditions of the non-diverging arms
-        alts = [cond_atoms(ctx, e["cond"], True)]
-        cur = strip(els)
-        ok = False
-        while True:
-            if cur.get("k") == "If":
-                if diverges(cur["then"]):
-                    ok = False
-                    break
-                alts.append(cond_atoms(ctx, cur["cond"], True))
-                if cur.get("else") is None:
-                    ok = False
-                    break
-                nxt = strip(cur["else"])
-                if diverges(nxt) and nxt.get("k") != "If":
-                    ok = True
-                    break
-                cur = nxt
-            else:
-                ok = diverges(cur)
-                break
-        if ok or (strip(els).get("k") != "If"):
-            if len(alts) == 1:
-                out.extend((f, e) for f in alts[0])
-            else:
-                out.append((("or", alts), e))
+        return out
+    # chain of non-diverging arms closed by a diverging else: one of the arm conditions held
+    alts = []
+    cur = e
+    while True:
+        if diverges(cur["then"]):
+            return out
+        alts.append(cond_atoms(ctx, cur["cond"], True))
+        nxt = cur.get("else")
+        if nxt is None:
+            return out
+        nxt = strip(nxt)
+        if nxt.get("k") == "If":
+            cur = nxt
+            continue
+        if diverges(nxt):
+            break
+        return out
+    if len(alts) == 1:
+        out.extend((f, e) for f in alts[0])
+    else:
+        out.append((("or", alts), e))
     return out
 
 
